@@ -380,12 +380,35 @@ def history_cases(kind, rng, n):
     for i in range(n):
         gen = mgmt.Gen(rng, kind, W_HIST)
         rows = gen.rows(rng.randint(0, 8))
-        if i % 4 == 0:
+        uni = mgmt.Universe(kind)
+        d = [rng.choice(uni.doms)] if kind.dom else []
+        if i % 6 == 0:
             # revoke every assignment, reload, (re-assign one): the emptied role definition must not keep old links
             gs = [r for pt, r in rows if pt == 1]
             prefix = [(3, 1, list(r)) for r in gs] + [(31,)]
             if gs and rng.random() < 0.5:
                 prefix.append((1, 1, list(gs[0])))
+        elif i % 6 == 1:
+            # assignments that exist in memory only (auto-save off) are dropped by a reload: afterwards nobody holds them
+            rows = [(pt, r) for pt, r in rows if pt == 0]
+            adds = [(1, 1, gen.uni.g_rule(rng)) for _ in range(rng.randint(1, 4))]
+            prefix = [(35, False)] + adds + [(50, rq) for rq in rng.sample(uni.requests(), 3)] + [(31,)]
+        elif i % 6 == 2:
+            # every domain is queried while it has no assignment yet (an empty per-domain manager gets cached), then
+            # the first assignments arrive through the management API
+            rows = [(pt, r) for pt, r in rows if pt == 0]
+            qs = [(50, rq) for rq in uni.requests()[::3]]
+            if kind.dom:
+                qs += [(57, u, dd) for u in uni.subs[:3] for dd in uni.doms]
+            adds = [(1, 1, gen.uni.g_rule(rng)) for _ in range(rng.randint(1, 5))]
+            prefix = qs + adds
+        elif i % 6 == 3:
+            # a refused request, then two role chains are joined in the middle (not at the asked subject, not at the
+            # permitted role): the earlier refusal must not be remembered
+            a, b, c, e = rng.sample(uni.subs, 4) if len(uni.subs) >= 4 else (uni.subs * 4)[:4]
+            rows = [(0, [e] + d + [uni.objs[0], uni.acts[0]]), (1, [a, b] + d), (1, [c, e] + d)]
+            req = [a] + d + [uni.objs[0], uni.acts[0]]
+            prefix = [(50, req), (60, a, d[0] if d else 0), (1, 1, [b, c] + d)]
         else:
             prefix = mgmt.drop_prefix_aliases(kind, rows, gen.history(rng.randint(2, 12), final_probe=False))
             # in-between queries: only the RBAC queries and enforce (a get_filtered_policy whose filter reaches past a
